@@ -12,7 +12,7 @@ import sat
 from common import MachineryError, Scratch, Verdict
 
 PID = "C09"
-INVARIANTS = ["ConventionsAgree", "SyncFnWins", "BoundOnce", "ClassificationConsistent"]
+INVARIANTS = ["ConventionsAgree", "SyncFnWins", "BoundOnce", "ClassificationConsistent", "CallsIndependent"]
 
 
 def main():
@@ -35,9 +35,10 @@ def main():
             if mism:
                 print("VIOLATION property=%s replay=%s" % (PID, a.replay))
             return 1 if mism else 0
-        runs = [("product", {"CALLS": "1", "PATS": "all"})]
-        if tier == "thorough":
-            runs.append(("pairs", {"CALLS": "2", "PATS": "few"}))
+        # product: every cell once on a fresh object; pairs: every ordered pair of Access+Call steps on the SAME decorated
+        # attribute (all access paths x conventions; quick: pattern pos, thorough: pos and kwonly)
+        runs = [("product", {"CALLS": "1", "PATS": "all"}),
+                ("pairs", {"CALLS": "2", "PATS": "one" if tier == "quick" else "few"})]
         cases, states, transitions, ok, alarms, tails = [], 0, 0, True, [], []
         for name, env in runs:
             hs, res = sat.tlc_histories("Decorators", "Decorators.cfg", sc, env=env)
@@ -70,28 +71,34 @@ def main():
         calls = [(c, o) for c in cases for o in c["h"]]
         cells = {(c["deco"], c["defk"], c["body"], o["via"], o["argp"], o["conv"]) for c, o in calls}
         nontriv = sum(1 for c, o in calls if o["res"]["bound"] != "none" or o["res"]["ran"] == "sync")
+        pairs = [c for c in cases if len(c["h"]) == 2]
+        cross = sum(1 for c in pairs if c["h"][0]["via"] != c["h"][1]["via"])
+        rebound = sum(1 for c in pairs if c["h"][0]["res"]["bound"] != c["h"][1]["res"]["bound"])
         per_deco = {}
         for c, o in calls:
             per_deco[c["deco"]] = per_deco.get(c["deco"], 0) + 1
         cov = {
             "states": states, "transitions": transitions, "traces_validated_against_impl": total,
             "samples": cases[:1] + cases[len(cases) // 2: len(cases) // 2 + 1] + cases[-1:],
-            "histories": len(cases), "calls_per_build": len(calls), "distinct_cells": len(cells), "calls_per_decorator": per_deco,
+            "histories": len(cases), "pair_histories": len(pairs), "pairs_through_different_access_paths": cross,
+            "pairs_with_different_bound_objects": rebound, "calls_per_build": len(calls), "distinct_cells": len(cells), "calls_per_decorator": per_deco,
             "builds": list(builds), "tlc_runs": [dict(env, name=name) for name, env in runs],
             "bindings": sorted({"%s/%s" % (c["defk"], o["via"]) for c, o in calls}),
             "conventions": sorted({o["conv"] for c, o in calls}), "argument_patterns": sorted({o["argp"] for c, o in calls}),
             "bodies": sorted({c["body"] for c in cases}),
             "model_invariants": INVARIANTS, "model_ok": ok, "mismatching_histories": nmis,
             "evaluations": total, "distinct_nontrivial": nontriv,
-            "rule": "complete product decorator kind x binding x argument pattern x body x calling convention (thorough: also every ordered pair of "
-                    "calls on one decorated object over the patterns pos/kwonly); non-trivial = the cell has a bound first argument or runs sync_fn",
+            "rule": "complete product decorator kind x binding x argument pattern x body x calling convention, plus every ordered pair of Access+Call "
+                    "steps on one decorated attribute (all access paths x conventions; pattern pos, thorough: pos/kwonly), each call prescribed as if alone; "
+                    "non-trivial = the call has a bound first argument or runs sync_fn",
             "exhaustive": True,
         }
         rc = verdict.finish()
         common.write_evidence(PID, "model_checking", cov, time.time() - t0, violations=len(verdict.violations), assumptions=[
             "one parameter list `([first,] a, b=20, *, k=30)`; argument patterns positional / keyword / mixed / default omitted / keyword-only",
             "aretry and alru_cache only on functions and instance methods, acached_per_instance only on instance methods (the bindings they are written for); "
-            "alru_cache / acached_per_instance objects are called once per history (repeated calls belong to C13)",
+            "alru_cache / acached_per_instance objects are called once per history (repeated calls belong to C13) and are not part of the pair histories",
+            "pair histories: two accesses/calls in sequence on one decorated object (state left on the shared decorator by the first must not matter); longer sequences are not enumerated",
             "async_proxy returning a ConstFuture and the undecorated control have a plain body only (a ConstFuture cannot block)",
             "sync_fn is supplied the way the decorator documents/tests it: asynq(sync_fn=) gets the same descriptor kind (function / classmethod / staticmethod object), "
             "async_proxy(sync_fn=) a plain function that receives the bound object",
